@@ -330,6 +330,15 @@ def run_relay_check(work, prop, tier, replay=None):
             futs = [ex.submit(validate_chunk, work, ch, invs, mods, [], "tv-g%d-c%d" % (gi, ci)) for ci, ch in enumerate(chunks)]
             for f in futs:
                 fails += f.result()
+    extra = None
+    if prop == "C10" and not replay:
+        import idgen_check
+        extra = idgen_check.run(work, tier)
+        work.log("id source: model %s states, %d scripts on the real generator, %d failing, burst %s" % (
+            extra["mc"]["distinct"], extra["scripts"], len(extra["fails"]), extra["burst"]))
+        for f in extra["fails"]:
+            fails.append(dict(hid="idgen-" + f["script"], sig=dict(inv=f["inv"], step="idgen", kind=f["record"].get("op", "burst"), ret="-"),
+                              rec=dict(i=-1), idgen=f))
     stats = trace_stats(all_traces)
     work.log("validated %d histories / %d steps; %d failing histories" % (stats["histories"], stats["steps"], len(fails)))
 
@@ -349,7 +358,7 @@ def run_relay_check(work, prop, tier, replay=None):
             continue
         seen_sig.add(key)
         h = hist_by_id.get(fr["hid"])
-        path = save_replay(prop, fr["hid"], [h] if h else [dict(hid=fr["hid"])])
+        path = save_replay(prop, fr["hid"], [h] if h else [dict(hid=fr["hid"], detail=fr.get("idgen"))])
         violations.append((fr, path))
 
     missing = [] if replay else check_vacuity(prop, stats)
@@ -376,6 +385,12 @@ def run_relay_check(work, prop, tier, replay=None):
         failing_histories=[dict(hid=fr["hid"], signature=fr["sig"]) for fr in fails][:20],
         known_findings_reproduced=[k["id"] for k, _ in known],
     )
+    if extra:
+        coverage["id_source"] = dict(model_states=extra["mc"]["distinct"], model_transitions=extra["mc"]["generated"],
+                                     scripts_replayed_on_real_generator=extra["scripts"], burst=extra["burst"])
+        coverage["states"] += extra["mc"]["distinct"]
+        coverage["transitions"] += extra["mc"]["generated"]
+        coverage["traces_validated_against_impl"] += extra["scripts"]
     assumptions = [
         "the L1 harness (handler level, single goroutine) drives the real RealtimeHandler/models/modules through the overlay-exported handler.handleMessage; wire framing and the three connection goroutines are covered by the connection-grain checks (C08)",
         "state is read through overlay accessors added at check time (models/verif_export.go); the projection is trusted",
